@@ -5,14 +5,18 @@ HERE = os.path.dirname(os.path.abspath(__file__))
 SMT = os.path.join(HERE, "..", "common", "hash", "smt-portfolio.sh")
 SMT_FLAGS = ["--cvc5", "--slice-formula", "--external-smt2-solver", os.path.normpath(SMT), "--no-standard-checks"]
 
+# step.c: the symbolic-offset memcpy of sha2_update makes ctx->hash_size a non-constant expression for CBMC's symbolic
+# execution, so the digest byte-swap loops of sha2_final need an explicit bound (64/4 resp. 64/8 iterations at most)
+SHA2_US = ["sha2_memcpy_bswap4.0:18", "sha2_memcpy_bswap8.0:10"]
+
 # name, adapter, block, state bytes, ctx bytes (for unwind), alignment offsets worth distinguishing, defs
 ALGS = {
     "md5":    dict(h="common/hash/alg_md5.h", blk=64, lenb=8, offs=[0, 1, 2], defs={}, upd="md5_update.0"),
     "sha1":   dict(h="common/hash/alg_sha1.h", blk=64, lenb=8, offs=[0, 1], defs={}),
-    "sha224": dict(h="common/hash/alg_sha2.h", blk=64, lenb=8, offs=[0], defs={"BITS": 224}),
-    "sha256": dict(h="common/hash/alg_sha2.h", blk=64, lenb=8, offs=[0, 1], defs={"BITS": 256}),
-    "sha384": dict(h="common/hash/alg_sha2.h", blk=128, lenb=16, offs=[0], defs={"BITS": 384}),
-    "sha512": dict(h="common/hash/alg_sha2.h", blk=128, lenb=16, offs=[0, 1], defs={"BITS": 512}),
+    "sha224": dict(h="common/hash/alg_sha2.h", blk=64, lenb=8, offs=[0], defs={"BITS": 224}, step_us=SHA2_US),
+    "sha256": dict(h="common/hash/alg_sha2.h", blk=64, lenb=8, offs=[0, 1], defs={"BITS": 256}, step_us=SHA2_US),
+    "sha384": dict(h="common/hash/alg_sha2.h", blk=128, lenb=16, offs=[0], defs={"BITS": 384}, step_us=SHA2_US),
+    "sha512": dict(h="common/hash/alg_sha2.h", blk=128, lenb=16, offs=[0, 1], defs={"BITS": 512}, step_us=SHA2_US),
 }
 
 META = {
@@ -52,8 +56,8 @@ def xform_jobs(tier):
                             "shape": shape, "desc": "portable transform == compression function of the standard "
                             "(generated straight-line reference); decided by cvc5 on bit-vector terms",
                             "timeout": 300 if tier == "quick" else 1500, "cost": 5})
-                out.append({"name": "xform-%s-n%d-o%d-safe" % (a, nblk, off), "src": "xform.c", "defs": defs, "unwind": uw,
-                            "solver": "cadical", "prop_exclude": "standard compression|EXTRA",
+                out.append({"name": "xform-%s-n%d-o%d-safe" % (a, nblk, off), "src": "xform.c", "defs": dict(defs, NO_REF=None),
+                            "unwind": uw, "solver": "cadical", "mem_gb": 12,
                             "shape": shape, "desc": "built-in memory-safety / UB checks of the transform; frame condition "
                             "(only chaining state and scratch change)", "cost": 2})
     return out
@@ -86,7 +90,7 @@ def stream_jobs(tier):
         B, LB = A["blk"], A["lenb"]
         edge = [0, 1, B - LB - 1, B - LB, B - 1, B, B + 1, 2 * B - LB - 1, 2 * B - LB, 2 * B, 2 * B + LB + 1]
         if tier == "quick":
-            lens = [0, B - LB - 1, B - LB, B + 1, 2 * B + LB + 1] if a in FULL else [B - LB, B + 1]
+            lens = [0, B - LB - 1, B - LB, B + 1, 2 * B] if a in FULL else [B - LB, B + 1]
             few = True
         else:
             lens = list(range(0, 2 * B + LB + 2)) if a in FULL else edge
@@ -120,7 +124,7 @@ def step_shapes(a, tier):
     if tier == "quick":
         if a not in FULL:
             return [(B - LB, 1), (1, 2 * B)]
-        return [(0, 0), (0, B), (1, B - 2), (1, B - 1), (B - LB - 1, 0), (B - LB, 0), (B - 1, 1), (B - 1, B + 2), (3, 2 * B)]
+        return [(0, 0), (0, B), (1, B - 2), (1, B - 1), (B - LB - 1, 0), (B - LB, 0), (B - 1, 1), (B - 1, B + 2)]
     rs = [0, 1, 2, B - LB - 2, B - LB - 1, B - LB, B - LB + 1, B // 2, B - 2, B - 1] if a in FULL else [0, B - LB, B - 1]
     out = set()
     for r in rs:
@@ -135,9 +139,9 @@ def step_jobs(tier):
     for a, A in ALGS.items():
         B = A["blk"]
         for r, l in step_shapes(a, tier):
-            us = ["%s:%d" % (A["upd"], l // B + 3)] if A.get("upd") else []
+            us = (["%s:%d" % (A["upd"], l // B + 3)] if A.get("upd") else []) + A.get("step_us", [])
             out.append({"name": "step-%s-R%d-L%d" % (a, r, l), "src": "step.c", "defs": dict(alg_defs(a), R=r, L=l),
-                        "unwind": 900, "unwindset": us, "solver": "cadical",
+                        "unwind": 900, "unwindset": us, "solver": "kissat",
                         "shape": "%s mid-stream context: ANY byte count n with n mod %d = %d (n symbolic), any chaining "
                                  "value/tail/other context bytes; update(%d bytes) then final" % (a, B, r, l),
                         "desc": "inductive step: blocks given to the transform, chaining, count(+carry), buffer tail after "
@@ -145,9 +149,9 @@ def step_jobs(tier):
                         "cost": 10, "timeout": 200 if tier == "quick" else 1500})
         if tier == "thorough" and a in FULL:
             l = B + 1
-            us = ["%s:%d" % (A["upd"], l // B + 3)] if A.get("upd") else []
+            us = (["%s:%d" % (A["upd"], l // B + 3)] if A.get("upd") else []) + A.get("step_us", [])
             out.append({"name": "step-%s-Rsym-L%d" % (a, l), "src": "step.c", "defs": dict(alg_defs(a), L=l),
-                        "unwind": 900, "unwindset": us, "solver": "cadical",
+                        "unwind": 900, "unwindset": us, "solver": "kissat",
                         "shape": "%s mid-stream context: ANY byte count n (residue n mod %d symbolic too); update(%d "
                                  "bytes) then final" % (a, B, l),
                         "desc": "inductive step for all residues in one query", "cost": 300, "timeout": 2400})
@@ -161,4 +165,11 @@ def lemma_jobs(tier):
 
 
 def jobs(tier):
-    return lemma_jobs(tier) + xform_jobs(tier) + stream_jobs(tier) + step_jobs(tier)
+    out = lemma_jobs(tier) + xform_jobs(tier) + stream_jobs(tier) + step_jobs(tier)
+    for j in out:
+        # The harness' own allocations are `p = malloc(n); assume(p != 0)` (verif.h); liblcb's hash code never allocates.
+        # With CBMC's default --malloc-may-fail every later access through p is executed for the NULL case as well and
+        # only discarded by the assumption inside the solver [measured: SHA-512 transform 227149 SSA steps / out of
+        # memory, against 2677 steps / 2 s with this flag].
+        j["flags"] = list(j.get("flags", [])) + ["--no-malloc-may-fail"]
+    return out
